@@ -292,6 +292,11 @@ func main() {
 		return
 	}
 
+	if req.Mode == "embed-conc" || req.Mode == "embed-seq" {
+		runEmbed(ctx, req)
+		return
+	}
+
 	// shared importer and shared compiled code are created once, before the evaluations start
 	cfg := risor.NewConfig(risor.WithConcurrency())
 	imp := importer.NewLocalImporter(importer.LocalImporterOptions{GlobalNames: cfg.GlobalNames(), SourceDir: req.Dir})
